@@ -356,7 +356,11 @@ def main(argv):
 
     known, fixed = load_known()
     violations, known_hits, undecided = [], [], []
-    os.makedirs(os.path.join(ROOT, "replay/out"), exist_ok=True)
+    # runs against a tree other than /repo (mutation self-test, seeded changes in scratch copies) must not
+    # touch the evidence and replay files of the real tree
+    alt = os.path.realpath(a.repo) != os.path.realpath("/repo")
+    out_root = os.path.join(BUILD, "alt") if alt else ROOT
+    os.makedirs(os.path.join(out_root, "replay/out"), exist_ok=True)
     for u, r in zip(units, results):
         if r["status"] == "undecided":
             undecided.append((u, r))
@@ -372,7 +376,7 @@ def main(argv):
                 continue
             wit = {"found": False, "note": "witness search skipped"} if a.no_witness else (
                 r.get("witness") or run_witness(u, a.repo, bdir))
-            rp = os.path.join(ROOT, "replay/out", f"{prop}-{r['unit']}-{ob['name'].split('::')[-1]}.json")
+            rp = os.path.join(out_root, "replay/out", f"{prop}-{r['unit']}-{ob['name'].split('::')[-1]}.json")
             json.dump({"property": prop, "unit": r["unit"], "obligation": ob["name"], "engine": r["engine"],
                        "sites": finding_site(r, ob),
                        "verifier_output": [d for d in r["diagnostics"]][:10],
@@ -418,8 +422,8 @@ def main(argv):
         "wall_s": round(time.time() - t0, 2),
         "violations": len(violations),
     }
-    os.makedirs(os.path.join(ROOT, "evidence"), exist_ok=True)
-    json.dump(ev, open(os.path.join(ROOT, "evidence", prop + ".json"), "w"), indent=1)
+    os.makedirs(os.path.join(out_root, "evidence"), exist_ok=True)
+    json.dump(ev, open(os.path.join(out_root, "evidence", prop + ".json"), "w"), indent=1)
 
     for k, ob in known_hits:
         print(f"KNOWN-FINDING: property={prop} {ob['name']} {k.get('what', k['_line'])}")
